@@ -174,6 +174,7 @@ func matchFinding(fs []Finding, prop, name string) *Finding {
 var propDeps = map[string][]string{
 	"C03": {"C02", "C04"},
 	"C05": {"C01", "C02", "C03", "C04", "C15", "C20"},
+	"C06": {"C10"}, // the VM is safe on well-formed code: what the compiler emits (C10) is its hypothesis
 	"C07": {"C08", "C11", "C20"},
 	"C08": {"C07"},
 	"C09": {"C13", "C14"},
@@ -192,7 +193,7 @@ func hasProp(props []string, p string) bool {
 	if p == "" || p == "all" {
 		return true
 	}
-	if contains(props, p) {
+	if contains(props, p) || contains(props, "*") {
 		return true
 	}
 	for _, q := range propDeps[p] {
@@ -212,6 +213,8 @@ type Checker struct {
 	jobs []job
 	toolErrs []string
 	funcsUnder []string
+	framesOnly []string // functions verified only for their frame (callees of the functions of this property)
+	frameReach map[*ssa.Function]bool
 	abstractions map[string]bool
 	only string
 }
@@ -226,6 +229,56 @@ func (ck *Checker) addObls(x *Exec, obls []*Obligation) {
 	for _, l := range x.limits {
 		ck.abstractions[l] = true
 	}
+}
+
+// frameClosure: every function that the functions verified for this property may call, directly or
+// not (static calls, closures, function values, goroutines).
+func (ck *Checker) frameClosure() map[*ssa.Function]bool {
+	if ck.frameReach != nil {
+		return ck.frameReach
+	}
+	ck.frameReach = map[*ssa.Function]bool{}
+	if ck.only != "" || ck.prop == "" || ck.prop == "all" {
+		return ck.frameReach
+	}
+	var roots []*ssa.Function
+	for _, name := range ck.C.SortedFuncNames() {
+		fc := ck.C.Funcs[name]
+		if fc.Extern || fc.Slot || fc.Trusted {
+			continue
+		}
+		fn := ck.P.Lookup(name)
+		if fn == nil {
+			continue
+		}
+		if ck.relevantTo(fn, fc) {
+			roots = append(roots, fn)
+		}
+	}
+	ck.frameReach = ck.Eff.reachableWithGo(roots...)
+	return ck.frameReach
+}
+
+func (ck *Checker) relevantTo(fn *ssa.Function, fc *FuncContract) bool {
+	if hasProp(fc.Props, ck.prop) {
+		return true
+	}
+	all := append(append(append([]*Clause{}, fc.Requires...), fc.Ensures...), fc.Asserts...)
+	for _, cls := range fc.LoopInv {
+		all = append(all, cls...)
+	}
+	for _, cls := range fc.LoopStep {
+		all = append(all, cls...)
+	}
+	for _, cls := range fc.LoopVar {
+		all = append(all, cls...)
+	}
+	for _, cl := range all {
+		if hasProp(cl.Props, ck.prop) {
+			return true
+		}
+	}
+	return ck.indirectlyRelevant(fn, fc)
 }
 
 func (ck *Checker) collect() {
@@ -262,8 +315,14 @@ func (ck *Checker) collect() {
 		if !relevant && fn != nil && ck.prop != "C06" {
 			relevant = ck.indirectlyRelevant(fn, fc)
 		}
+		frameOnly := false
 		if !relevant && ck.prop != "C06" {
-			continue
+			// not verified for this property, but called (directly or not) by functions that are: they rely
+			// on its declared frame, so its frame obligations belong to this run as well
+			if fn == nil || !fc.HasMod || !ck.frameClosure()[fn] {
+				continue
+			}
+			frameOnly = true
 		}
 		if fn == nil {
 			ck.toolErrs = append(ck.toolErrs, fmt.Sprintf("function under contract not found in the package: %s (%s)", name, fc.Where))
@@ -275,6 +334,17 @@ func (ck *Checker) collect() {
 		obls, err := x.VerifyFunc(fn, fc, name)
 		if err != nil {
 			ck.toolErrs = append(ck.toolErrs, err.Error())
+		}
+		if frameOnly {
+			var fr []*Obligation
+			for _, o := range obls {
+				if o.Kind == "frame" {
+					fr = append(fr, o)
+				}
+			}
+			ck.framesOnly = append(ck.framesOnly, name)
+			ck.addObls(x, fr)
+			continue
 		}
 		ck.funcsUnder = append(ck.funcsUnder, name)
 		ck.addObls(x, obls)
@@ -292,12 +362,13 @@ func (ck *Checker) collect() {
 	}
 	// slot conformance
 	for sname, sc := range ck.C.Slots {
-		if !hasProp(sc.Props, ck.prop) && ck.prop != "C06" {
-			continue
-		}
+		slotRelevant := hasProp(sc.Props, ck.prop) || ck.prop == "C06"
 		for _, fn := range slotMembers(ck.P, sname) {
 			name := ck.P.FuncName(fn)
 			if ck.only != "" && ck.only != name {
+				continue
+			}
+			if !slotRelevant && !(sc.HasMod && ck.frameClosure()[fn]) {
 				continue
 			}
 			x := NewExec(ck.P, ck.C, sc.Mode)
@@ -322,6 +393,15 @@ func (ck *Checker) collect() {
 			obls, err := x.VerifyFunc(fn, use, name+"/slot:"+sname)
 			if err != nil {
 				ck.toolErrs = append(ck.toolErrs, err.Error())
+			}
+			if !slotRelevant {
+				var fr []*Obligation
+				for _, o := range obls {
+					if o.Kind == "frame" {
+						fr = append(fr, o)
+					}
+				}
+				obls = fr
 			}
 			ck.addObls(x, obls)
 		}
